@@ -337,12 +337,58 @@ func (in *Interp) sprintf(fr *frame, format Str, args []Value) Str {
 			out = strConcat(out, mkStr(fmt.Sprintf("%"+string(verb), n)))
 			continue
 		}
+		if verb == 'q' {
+			out = strConcat(out, in.quoteSym(fr, a))
+			continue
+		}
 		if verb != 's' && verb != 'v' && verb != 'd' {
 			panic(engineErr("format verb on symbolic arg: " + string(verb)))
 		}
 		out = strConcat(out, in.symToStr(fr, a))
 	}
 	return out
+}
+
+// quoteSym: strconv.Quote of a string with symbolic bytes. Each symbolic byte forks over the classes
+// Quote distinguishes for ASCII: backslash, double quote, other printable ASCII (copied); control bytes,
+// DEL and bytes >= 0x80 (whose rendering depends on the surrounding UTF-8 sequence) end the path as unsupported.
+func (in *Interp) quoteSym(fr *frame, a Value) Str {
+	if itf, ok := a.(Iface); ok {
+		a = itf.V
+	}
+	s, ok := a.(Str)
+	if !ok {
+		panic(engineErr(fmt.Sprintf("%%q on symbolic %T", a)))
+	}
+	s = s.norm()
+	out := mkStr("\"")
+	for _, g := range s.segs {
+		if g.A != nil {
+			out = strConcat(out, Str{segs: []Seg{g}}) // digits and signs: copied
+			continue
+		}
+		for _, b := range g.B {
+			if b.S == nil {
+				q := strconv.Quote(string([]byte{b.C}))
+				if b.C >= 0x80 {
+					panic(engineErr("%q on a string mixing symbolic bytes and non-ASCII"))
+				}
+				out = strConcat(out, mkStr(q[1:len(q)-1]))
+				continue
+			}
+			switch {
+			case in.br(Eq(b.S, BVC(8, '\\'))):
+				out = strConcat(out, mkStr("\\\\"))
+			case in.br(Eq(b.S, BVC(8, '"'))):
+				out = strConcat(out, mkStr("\\\""))
+			case in.br(And(BVUle(BVC(8, 0x20), b.S), BVUle(b.S, BVC(8, 0x7e)))):
+				out = strConcat(out, strOfBytes([]SByte{b}))
+			default:
+				panic(engineErr("%q on a symbolic control or non-ASCII byte"))
+			}
+		}
+	}
+	return strConcat(out, mkStr("\""))
 }
 
 func (in *Interp) symToStr(fr *frame, a Value) Str {
@@ -971,7 +1017,10 @@ func init() {
 	reg("os.Getenv", func(in *Interp, fr *frame, a []Value) Value { return mkStr("") })
 }
 
-type fakeFileInfo struct{ dir bool }
+type fakeFileInfo struct {
+	name string
+	dir  bool
+}
 
 // symRegexp: a *regexp.Regexp compiled from a symbolic pattern (opaque; matching is uninterpreted)
 type symRegexp struct{ pattern Str }
